@@ -288,6 +288,20 @@ var cfgKinds = map[string]cfgFn{
 		}
 		return a.EsmKeeper.AddESMTriggerParamsForApp(ctx, &v)
 	},
+	"cfg.lend.emode": func(a *chain.App, ctx sdk.Context, raw json.RawMessage) error {
+		v, err := dec[lendtypes.EModePairsForProposal](raw)
+		if err != nil {
+			return err
+		}
+		return a.LendKeeper.AddEModePairs(ctx, v)
+	},
+	"cfg.asset.update": func(a *chain.App, ctx sdk.Context, raw json.RawMessage) error {
+		v, err := dec[assettypes.Asset](raw)
+		if err != nil {
+			return err
+		}
+		return a.AssetKeeper.UpdateAssetRecords(ctx, v)
+	},
 	"cfg.rewards.vaultinterest": func(a *chain.App, ctx sdk.Context, raw json.RawMessage) error {
 		v, err := dec[uint64](raw)
 		if err != nil {
@@ -390,6 +404,9 @@ func ExecOn(app *chain.App, ctx sdk.Context, st Step) (res TxRes) {
 	}()
 	if err := fn(app, cctx, st.Obj); err != nil {
 		res.Err, res.Code = err.Error(), "cfgerr"
+		if c := errCodeOf(err); c != "unregistered" {
+			res.Code = c // which guard rejected a governance-style request is part of its result
+		}
 		return
 	}
 	write()
